@@ -2,7 +2,8 @@
   Engine `dispatch` (C04).  Same line protocol as harness/dispatch.cpp:
 
     D <table> <locsize> <msg>;<msg>;… [tokens for the oracle, ignored]
-        <table> = T<0|1>[<entry>,<entry>,…]     0/1: the table has a default handler
+        <table> = T<0|1>[c|m][<entry>,<entry>,…]  0/1: the table has a default handler; c/m: the
+                                                  harness builds it through ClonePorts / MergePorts
         <entry> = L<name-hex>                    port without sub-table
                 | N<name-hex><table>             port with sub-table (recursion callback)
         <msg>   = <B|S><address-hex>:<tags-hex>  B: dispatch(msg, d, true), S: dispatch(msg, d)
@@ -28,7 +29,14 @@ def isHexChar (c : Char) : Bool := (hexVal c).isSome
 
 /-- `T<d>[` … `]`; fuel = number of characters -/
 partial def parseTable : List Char → Option (Ports × List Char)
-  | 'T' :: dc :: '[' :: r =>
+  | 'T' :: dc :: r0 =>
+    -- construction mode of the harness (`c`: ClonePorts, `m`: MergePorts): the same table
+    let r1 := match r0 with
+      | 'c' :: r => r
+      | 'm' :: r => r
+      | r => r
+    if r1.head? != some '[' then none else
+    let r := r1.drop 1
     let dflt := dc == '1'
     let rec entries (cs : List Char) (acc : List (Bytes × Option Ports)) : Option (List (Bytes × Option Ports) × List Char) :=
       match cs with
@@ -65,16 +73,8 @@ def allNames : Table → List (List Bytes)
   | .leaf _ r => allNames r
   | .node _ c _ r => c.names :: (allNames c ++ allNames r)
 
-/-- `mk` with the results for the given tables precomputed (`cached_eq` in Proofs: it is
-    the same function) -/
-def cachedMk (f : List Bytes → Option Matcher) (cache : List (List Bytes × Option Matcher))
-    (names : List Bytes) : Option Matcher :=
-  match cache.lookup names with
-  | some r => r
-  | none => f names
-
-def buildCache (f : List Bytes → Option Matcher) (P : Ports) : List (List Bytes × Option Matcher) :=
-  ((P.tab.names :: allNames P.tab).eraseDups).map (fun n => (n, f n))
+def buildCacheFor (f : List Bytes → Option Matcher) (P : Ports) : List (List Bytes × Option Matcher) :=
+  buildCache f ((P.tab.names :: allNames P.tab).eraseDups)
 
 /-! ### printing -/
 
@@ -128,7 +128,7 @@ def opD (tab : String) (locSize : Nat) (msgs : String) : String :=
   match parseTable tab.toList with
   | some (P, []) =>
     let f := matcherOf realSearch
-    let cache := buildCache f P
+    let cache := buildCacheFor f P
     let mk := cachedMk f cache
     "|".intercalate ((msgs.splitOn ";").map (oneMsg mk P locSize))
   | _ => "bad-op"
